@@ -14,6 +14,7 @@
 From Coq Require Import List NArith.
 From Astisub Require Import Kit.Base Kit.Scan Model.Srt Model.Vtt Model.Ttx Proofs.SrtIOProofs Proofs.VttIOProofs Proofs.TtxTotal.
 From Astisub Require Import Model.Ssa Proofs.SsaIgnore.
+From Astisub Require Import Kit.Chk Model.SrtC Model.VttC Proofs.SrtChk Proofs.VttChk Model.Dur Model.DurC Proofs.DurChk.
 From Astisub Require Import Model.Stl Model.StlIO Proofs.StlBlocks Proofs.StlIOProofs.
 From Astisub Require Import Kit.Xml Model.Ttml Model.PlainTtml Proofs.TtmlBase Proofs.TtmlIO.
 Import ListNotations.
@@ -51,6 +52,35 @@ Print Assumptions C08_stl_reader_total.
 Print Assumptions C08_stl_reader_total_schedule.
 Print Assumptions C08_stl_writer_total.
 
+(* SubRip and WebVTT, CHECKED transcriptions (Model/SrtC.v, Model/VttC.v): every run-time panic site of srt.go and
+   webvtt.go -- slice index, slicing, nil dereference; the table with the guard that dominates each site is in
+   notes/C08.md -- is an explicit [Panic <line>] behind the code's own guard, so these statements have content: each
+   guard implies that its access is in range / non-nil (removing a guard from the model makes Panic reachable, e.g.
+   left[1] without strings.Contains(line, "-->")).  These are the functions the correspondence suites run; they agree
+   with the pattern-matching transcriptions on which the fidelity theorems of C01 / C02 are stated. *)
+Theorem C08_srt_checked_reader_total : forall (ls : list (list N)) (scan_err : bool) (p : N), read_srt_lines_c ls scan_err <> Panic p.
+Proof. exact read_srt_lines_c_no_panic. Qed.
+Theorem C08_srt_checked_writer_total : forall (l : list sitem) (p : N), write_srt_c l <> Panic p.
+Proof. exact write_srt_c_no_panic. Qed.
+Theorem C08_srt_checked_reader_agrees : forall ls e, read_srt_lines_c ls e = read_srt_lines ls e.
+Proof. exact read_srt_lines_c_ok. Qed.
+Theorem C08_srt_checked_writer_agrees : forall l, write_srt_c l = write_srt l.
+Proof. exact write_srt_c_ok. Qed.
+Theorem C08_vtt_checked_reader_total : forall (ls : list (list N)) (scan_err : bool) (p : N), read_vtt_lines_c ls scan_err <> Panic p.
+Proof. exact read_vtt_lines_c_no_panic. Qed.
+Theorem C08_vtt_checked_writer_total : forall d so ro (p : N), write_vtt_c d so ro <> Panic p.
+Proof. exact write_vtt_c_no_panic. Qed.
+Theorem C08_vtt_checked_reader_agrees : forall ls e, read_vtt_lines_c ls e = read_vtt_lines ls e.
+Proof. exact read_vtt_lines_c_ok. Qed.
+Theorem C08_vtt_checked_writer_agrees : forall d so ro, write_vtt_c d so ro = write_vtt d so ro.
+Proof. exact write_vtt_c_ok. Qed.
+(* parseDuration (subtitles.go), used by both readers: parts[len(parts)-1], parts[:len(parts)-1], parts[0..2] *)
+Theorem C08_parse_duration_checked : forall s sep k, parse_duration_c s sep k = Ok (parse_duration s sep k).
+Proof. exact parse_duration_c_ok. Qed.
+(* the guards are what keeps the sites unreachable: the same accesses without their guard do panic *)
+Example C08_unguarded_index_panics : index (Str.split arrow [97]) 1 240 = Panic 240 /\ slice_to (@nil N) 1 364 = Panic 364 /\ deref (@None N) 289 = Panic 289.
+Proof. repeat split. Qed.
+
 (* teletext: any page option, any list of delivered (time, payload) pairs with arbitrary bytes *)
 Theorem C08_teletext_reader_total : forall page ds (p : N), ttx_feed page ds <> Panic p.
 Proof. exact ttx_feed_no_panic. Qed.
@@ -78,3 +108,12 @@ Print Assumptions C08_vtt_reader_total.
 Print Assumptions C08_vtt_writer_total.
 Print Assumptions C08_ssa_reader_total.
 Print Assumptions C08_ssa_writer_total.
+Print Assumptions C08_srt_checked_reader_total.
+Print Assumptions C08_srt_checked_writer_total.
+Print Assumptions C08_srt_checked_reader_agrees.
+Print Assumptions C08_srt_checked_writer_agrees.
+Print Assumptions C08_vtt_checked_reader_total.
+Print Assumptions C08_vtt_checked_writer_total.
+Print Assumptions C08_vtt_checked_reader_agrees.
+Print Assumptions C08_vtt_checked_writer_agrees.
+Print Assumptions C08_parse_duration_checked.
